@@ -478,8 +478,13 @@ func (o *lifeOracle) c20(e *Env, si *StepInfo) {
 		} else if pl, ok := cur.Node.Pledges[k]; !ok || pl.TotalStorage < e.W.Cfg.Node.VstorageThreshold {
 			why = fmt.Sprintf("pledged capacity %d below threshold %d", pl.TotalStorage, e.W.Cfg.Node.VstorageThreshold)
 		} else {
-			d, okd := cur.Stk.Dels[k+"|"+n.Validator]
-			v, okv := cur.Stk.Vals[n.Validator]
+			// the declared validator as the staking module spells it (bech32 is case-insensitive as a whole)
+			valS := n.Validator
+			if va, err := sdk.ValAddressFromBech32(n.Validator); err == nil {
+				valS = va.String()
+			}
+			d, okd := cur.Stk.Dels[k+"|"+valS]
+			v, okv := cur.Stk.Vals[valS]
 			switch {
 			case n.Validator == "" || !okd || !okv:
 				why = fmt.Sprintf("no delegation to declared validator %q", n.Validator)
